@@ -12,6 +12,7 @@ package main
 
 import (
 	"fmt"
+	"go/token"
 	"go/types"
 
 	"golang.org/x/tools/go/ssa"
@@ -142,6 +143,47 @@ func n4Unwrapped(p *Prog, r *Report) {
 			n++
 			count[p.Name(fn)]++
 			cons := fmt.Sprintf("identity-unwrapped:%s#%d", p.Name(fn), count[p.Name(fn)])
+			// polarity: where the identity test is branched on, the equal edge is not the one that answers
+			// "not this child" (found == false) or fails
+			if c.Referrers() != nil {
+				for _, ref := range *c.Referrers() {
+					var cond ssa.Value = c
+					neg := false
+					if u, ok := ref.(*ssa.UnOp); ok && u.Op == token.NOT {
+						cond, neg = u, true
+					}
+					if cond.Referrers() == nil {
+						continue
+					}
+					for _, r2 := range *cond.Referrers() {
+						ifi, ok := r2.(*ssa.If)
+						if !ok {
+							continue
+						}
+						eq := ifi.Block().Succs[0]
+						if neg {
+							eq = ifi.Block().Succs[1]
+						}
+						ret, ok := eq.Instrs[len(eq.Instrs)-1].(*ssa.Return)
+						if !ok {
+							continue
+						}
+						wrong := false
+						if cl, _ := classifyReturn(ret); cl == retError {
+							wrong = true
+						}
+						if len(ret.Results) > 0 {
+							if k, ok := ret.Results[0].(*ssa.Const); ok && k.Value != nil && k.Value.String() == "false" && lastResultIsError(fn) {
+								wrong = true
+							}
+						}
+						n++
+						r.Decide(!wrong, R, fmt.Sprintf("identity-polarity:%s#%d", p.Name(fn), count[p.Name(fn)]), p.InstrPos(ifi),
+							"a matching identity continues; only a mismatch answers not-found or fails",
+							"the equal edge of the identity test returns not-found / an error: the child that IS the element under the tracked position is taken for a stale one (every notification of a live child is refused) and a foreign one is accepted")
+					}
+				}
+			}
 			r.Decide(p.isUnwrappedStorable(st, unw, 0), R, cons, p.InstrPos(in),
 				"the slab id compared with the value id is read from the unwrapped element storable",
 				"the identity test reads the slab id from an element storable that was not unwrapped: a child stored inside a wrapper (an optional around a nested container) is never recognised as this child - a self-overwrite un-inlines the element just stored, a parent callback takes its own child for a replaced one")
